@@ -72,6 +72,7 @@ type hostileWorld struct {
 	ubound tcpip.Endpoint
 	uconn  tcpip.Endpoint
 	nid    uint16
+	nfd    int // connections opened for the "findup" step
 }
 
 // safeInject delivers a frame; a panic raised while the stack processes it on
@@ -402,9 +403,15 @@ func (w *hostileWorld) apply(s Step) {
 		w.nid++
 		id := 20000 + w.nid
 		var cuts []int
-		for k := r.Range(1, 3); k > 0; k-- {
+		ncut := r.Range(1, 3)
+		many := r.Chance(0.25) && len(payload) > 120
+		if many {
+			ncut = r.Range(9, 24) // a dozen and more pieces: one view per fragment reaches the transport layer
+			w.Probes["transport_packets_in_many_fragments"]++
+		}
+		for k := ncut; k > 0; k-- {
 			c := 8 * r.Range(1, 5)
-			if r.Chance(0.3) {
+			if many || r.Chance(0.3) {
 				c = 8 * r.Range(1, (len(payload)-1)/8)
 			}
 			if c < len(payload) {
@@ -449,6 +456,51 @@ func (w *hostileWorld) apply(s Step) {
 			w.safeInject(ipv4.ProtocolNumber, codec.IPv4([]byte(B4), []byte(A4), codec.ProtoTCP, w.nid, 64, false, false, 0, fill))
 		}
 		w.Probes["fin_with_data_ahead_of_a_hole"]++
+	case "findup":
+		// well-formed, in a particular order: a connection whose local side has shut down writing, so that its
+		// FIN is all that is in flight; three identical ACKs that do not cover the FIN, then one that does
+		for {
+			ep, _, err := w.lep.Accept()
+			if err != nil {
+				break
+			}
+			ep.Close()
+		}
+		w.Settle()
+		w.Take()
+		w.nfd++
+		p := w.NewTCPPeer(false, uint16(9800+w.nfd%100), 80, uint32(0x33330000+s.A))
+		p.Send(codec.FlagSYN, p.ISS, 0, 65535, nil, nil)
+		mine := p.Mine(w.Take())
+		if len(mine) == 0 || mine[0].Flags&(codec.FlagSYN|codec.FlagACK) != codec.FlagSYN|codec.FlagACK {
+			break
+		}
+		p.SndNxt = p.ISS + 1
+		p.Send(codec.FlagACK, p.SndNxt, p.RcvNxt, 65535, nil, nil)
+		p.Mine(w.Take())
+		ep, _, err := w.lep.Accept()
+		if err != nil {
+			break
+		}
+		ep.Shutdown(tcpip.ShutdownWrite)
+		w.Settle()
+		var fin *codec.TCP
+		for _, t := range p.Mine(w.Take()) {
+			if t.Flags&codec.FlagFIN != 0 {
+				fin = t
+			}
+		}
+		if fin != nil {
+			for i := 0; i < 3+s.B%3; i++ {
+				p.Send(codec.FlagACK, p.SndNxt, fin.Seq, 65535, nil, nil)
+			}
+			p.Send(codec.FlagACK, p.SndNxt, fin.Seq+1, 65535, nil, nil)
+			p.Mine(w.Take())
+			w.Probes["duplicate_acks_with_only_a_fin_in_flight"]++
+		}
+		ep.Close()
+		w.Settle()
+		p.Mine(w.Take())
 	case "runt":
 		// fd-based link only: a frame shorter than, or just as long as, an Ethernet header
 		if w.S.Link.fdrx != nil {
@@ -561,7 +613,9 @@ func (w *hostileWorld) serve() {
 
 func (w *hostileWorld) next() Step {
 	r := w.Rng
-	switch r.Pick(12, 2, 4, 2, 2, 1, 3, 1, 1) {
+	switch r.Pick(12, 2, 4, 2, 2, 1, 3, 1, 1, 1) {
+	case 9:
+		return Step{Op: "findup", A: r.Intn(60000), B: r.Intn(3)}
 	case 0:
 		return Step{Op: "mut", A: r.Intn(1 << 20), B: r.Intn(1 << 20)}
 	case 1:
